@@ -205,7 +205,9 @@ def run(ctx):
                 'sift_second_layer over 1..4 integer first-level components with and without a cap argument.  real numerics: capped vs '
                 'uncapped prefix for caps 1..n+2, manual peeling, ncols <= cap, shape, finiteness for all five variants.  non-trivial = a '
                 'cap strictly below the uncapped component count, or >= 2 components')
-    ctx.proof()
+    # the translation tie: the control skeletons of get_next_imf / sift / mask_sift are regenerated from the source and the
+    # refinement theorems to the models used by this property's theorems are re-checked
+    ctx.proof(extra=['props/Prop_Tie_Sift.v'])
     n = 60 if ctx.quick() else 2500
     cases = []
     for i in range(n):
